@@ -851,7 +851,69 @@ fn run_case(mode: Mode, specs: Vec<Vec<Err>>, labels: Vec<Label>) -> String {
     out.join(" ")
 }
 
+/// `cell dg <first error | -> <transport error>`: the datagram handle of the sibling crate
+/// (`h3_datagram::datagram_handler::DatagramSender`, a `ConnectionState` implementor bound to a request
+/// stream id) on a real `server::Connection`: optionally a request handle has raised `first` before; the
+/// transport then fails every call with `<transport error>`; `send_datagram` is called, then `accept()`
+/// is polled once.  Output: `cell=<cell> dg=<what the datagram handle reports> drv=<what the driver reports>`.
+fn run_dg(first: Option<Err>, q: Err) -> String {
+    use h3_datagram::datagram_handler::HandleDatagramsExt;
+    let net = Net::new(true);
+    let mut conn = build_server(&net);
+    if let Some(e) = &first {
+        let mut h = Handle { shared: conn.inner.shared.clone() };
+        let _ = raise(&mut h, e);
+    }
+    net.borrow_mut().conn_err = Some(quic_of(&q));
+    let mut snd = conn.get_datagram_sender(h3::quic::StreamId::try_from(0u64).unwrap());
+    let dg = match snd.send_datagram(Bytes::from_static(b"x")) {
+        Ok(()) => "ok".to_string(),
+        // the variant is `#[non_exhaustive]`: an application cannot take the `ConnectionError` out of it;
+        // what it can see is the Debug / Display rendering
+        Err(e) => {
+            let d = format!("{:?}", e);
+            let inner = d.strip_prefix("ConnectionError(").and_then(|r| r.strip_suffix(')')).unwrap_or("?");
+            if inner == "Timeout" {
+                "T".to_string()
+            } else if let Some(r) = inner.strip_prefix("Remote(").and_then(|r| r.strip_suffix(')')) {
+                if r == "Timeout" {
+                    "Rt".to_string()
+                } else if let Some(c) = r.strip_prefix("ApplicationClose(").and_then(|c| c.strip_suffix(')')).and_then(code_value) {
+                    format!("Ra{}", c)
+                } else if let Some(m) = r.strip_prefix("InternalError(\"").and_then(|m| m.strip_suffix("\")")) {
+                    format!("Ri.{}", tag_of(m))
+                } else if r.starts_with("Undefined(") {
+                    let t = r.trim_start_matches("Undefined(Tagged(").trim_end_matches("))");
+                    format!("Ru.{}", t)
+                } else {
+                    format!("R?{}", r.replace(' ', "_"))
+                }
+            } else {
+                format!("?{}", d.replace(' ', "_"))
+            }
+        }
+    };
+    let cell = conn.inner.shared.get_conn_error().map(|e| show_origin(&e)).unwrap_or_else(|| "-".into());
+    let drv = {
+        let mut fut = Box::pin(conn.accept());
+        match crate::sim::poll_once(&mut fut) {
+            Poll::Pending => "pend".to_string(),
+            Poll::Ready(Ok(_)) => "ok".to_string(),
+            Poll::Ready(Err(e)) => show_cerr(&e),
+        }
+    };
+    format!("cell={} dg={} drv={}", cell, dg, drv)
+}
+
 pub fn handle(w: &[&str]) -> String {
+    if w.len() == 4 && w[0] == "cell" && w[1] == "dg" {
+        let first = if w[2] == "-" { None } else { match parse_err(w[2]) { Some(e) => Some(e), None => return "bad-op".into() } };
+        let Some(q) = parse_err(w[3]) else { return "bad-op".into() };
+        if matches!(q, Err::Internal(..)) {
+            return "bad-op".into();
+        }
+        return guarded(move || run_dg(first, q));
+    }
     if w.len() < 3 || (w[0] != "cell" && w[0] != "cellmv") {
         return "bad-op".into();
     }
